@@ -26,6 +26,7 @@ type Program struct {
 	mu       sync.Mutex
 	RepoPkgs []string // import paths of repo packages (init order)
 	LoadSecs float64
+	Dropped  map[string]string // harness files removed because they do not compile against this tree -> first error
 }
 
 type FnInfo struct {
@@ -43,7 +44,10 @@ func CopyTree(repo, dst string) error {
 		}
 		rel, _ := filepath.Rel(repo, p)
 		if rel == ".git" {
-			return filepath.SkipDir
+			if info.IsDir() {
+				return filepath.SkipDir
+			}
+			return nil // a worktree's .git is a file
 		}
 		target := filepath.Join(dst, rel)
 		if info.IsDir() {
@@ -148,6 +152,55 @@ func packageName(dir string) (string, error) {
 	return "", fmt.Errorf("no package clause found in %s", dir)
 }
 
+// LoadErrors is returned by Load when packages do not type-check.
+type LoadErrors struct{ Errs []string }
+
+func (e *LoadErrors) Error() string { return "package load errors:\n" + strings.Join(e.Errs, "\n") }
+
+// LoadTolerant is Load for a tree whose source may have been refactored: harness files
+// (zz_vp_*.go) that no longer compile against it are removed one round at a time and recorded in
+// Program.Dropped (relative path -> first error); obligations whose harness function lived in a
+// dropped file are reported inconclusive by the driver, every other obligation still runs.
+// Errors outside harness files are fatal as before.
+func LoadTolerant(scratch string) (*Program, error) {
+	dropped := map[string]string{}
+	for round := 0; round < 8; round++ {
+		p, err := Load(scratch)
+		if err == nil {
+			p.Dropped = dropped
+			return p, nil
+		}
+		le, ok := err.(*LoadErrors)
+		if !ok {
+			return nil, err
+		}
+		bad := map[string]string{}
+		for _, e := range le.Errs {
+			file := e
+			if i := strings.Index(e, ".go:"); i >= 0 {
+				file = e[:i+3]
+			} else {
+				return nil, err
+			}
+			if !strings.HasPrefix(filepath.Base(file), "zz_vp_") || filepath.Base(file) == "zz_vp_api.go" {
+				return nil, err // the tree itself (or the intrinsic declarations) does not compile
+			}
+			if _, seen := bad[file]; !seen {
+				bad[file] = e
+			}
+		}
+		if len(bad) == 0 {
+			return nil, err
+		}
+		for f, e := range bad {
+			rel, _ := filepath.Rel(scratch, f)
+			dropped[rel] = strings.TrimPrefix(e, scratch+string(filepath.Separator))
+			os.Remove(f)
+		}
+	}
+	return nil, fmt.Errorf("harness files keep failing to compile after 8 rounds of removal")
+}
+
 // Load builds SSA for every package of the module rooted at scratch.
 func Load(scratch string) (*Program, error) {
 	cfg := &packages.Config{
@@ -167,7 +220,7 @@ func Load(scratch string) (*Program, error) {
 		}
 	})
 	if len(errs) > 0 {
-		return nil, fmt.Errorf("package load errors:\n%s", strings.Join(errs, "\n"))
+		return nil, &LoadErrors{Errs: errs}
 	}
 	prog, _ := ssautil.AllPackages(initial, ssa.InstantiateGenerics)
 	prog.Build()
